@@ -97,7 +97,13 @@ structure MsgState where
   mimever   : Bytes := sb "1.0"
   gen       : List (Bytes × List Bytes) := []     -- genHeader, values already encoded
   preform   : List (Bytes × Bytes) := []
-  addrs     : List (AddrKind × List Addr) := []   -- presence in the list = key present in the map
+  -- addrHeader: one slot per kind; `some l` = the key is present in the map (possibly with an empty list)
+  aFrom     : Option (List Addr) := none
+  aEnvFrom  : Option (List Addr) := none
+  aTo       : Option (List Addr) := none
+  aCc       : Option (List Addr) := none
+  aBcc      : Option (List Addr) := none
+  aReplyTo  : Option (List Addr) := none
   parts     : List Part := []
   embeds    : List FileM := []
   attachments : List FileM := []
@@ -113,11 +119,13 @@ def assocSet {β} (l : List (Bytes × β)) (k : Bytes) (v : β) : List (Bytes ×
 
 def assocGet {β} (l : List (Bytes × β)) (k : Bytes) : Option β := (l.find? (·.1 == k)).map (·.2)
 
-def addrGet (s : MsgState) (k : AddrKind) : Option (List Addr) := (s.addrs.find? (·.1 == k)).map (·.2)
+def addrGet (s : MsgState) : AddrKind → Option (List Addr)
+  | .from_ => s.aFrom | .envFrom => s.aEnvFrom | .to => s.aTo | .cc => s.aCc | .bcc => s.aBcc | .replyTo => s.aReplyTo
 
 def addrSet (s : MsgState) (k : AddrKind) (v : List Addr) : MsgState :=
-  { s with addrs := if s.addrs.any (·.1 == k) then s.addrs.map (fun kv => if kv.1 == k then (k, v) else kv)
-                    else s.addrs ++ [(k, v)] }
+  match k with
+  | .from_ => { s with aFrom := some v } | .envFrom => { s with aEnvFrom := some v } | .to => { s with aTo := some v }
+  | .cc => { s with aCc := some v } | .bcc => { s with aBcc := some v } | .replyTo => { s with aReplyTo := some v }
 
 /-- Msg.encodeString -/
 def encodeString (s : MsgState) (v : Bytes) : Bytes :=
